@@ -2,9 +2,12 @@
 
 * MemoryDC - in-memory FakeSocket / FakeStream transports + ScriptedContext (sub-millisecond),
              installed by patching socket.create_connection / asyncio.open_connection / spnego.client.
-* TcpDC    - loopback TCP listeners (threads, blocking sockets) with the real pyspnego acceptor;
-             the client is pointed at it by wrapping socket.create_connection / asyncio.open_connection
-             (port 135 -> EPM listener, ISD port -> ISD listener, any host -> 127.0.0.1).
+* TcpDC    - loopback TCP listeners (threads, blocking sockets) with the real pyspnego acceptor, on the REAL logical ports
+             (135 and the ISD port) of a loopback address private to this process (127.a.b.c).  The only thing replaced in
+             the client's world is name resolution (socket.getaddrinfo / gethostbyname map any host name to that address);
+             whatever socket / asyncio API the client uses to connect reaches the listeners through the kernel.  Connections
+             are logged from the interpreter's `socket.connect` audit event.  (If the process may not bind port 135 the old
+             mode is used: random ports on 127.0.0.1 behind wrappers of socket.create_connection / asyncio.open_connection.)
 """
 from __future__ import annotations
 
@@ -114,6 +117,23 @@ def _recv_pdu(s: socket.socket) -> t.Optional[bytes]:
     return buf
 
 
+_addr_counter = [0]
+_active_tcp: t.Dict[str, "TcpDC"] = {}
+_audit_installed = [False]
+
+
+def _connect_audit(event, args):
+    # socket.connect(sock, address): log client connections to an active reference DC (never raises)
+    if event == "socket.connect" and _active_tcp:
+        try:
+            addr = args[1]
+            dc = _active_tcp.get(addr[0]) if isinstance(addr, tuple) and len(addr) >= 2 else None
+            if dc is not None and threading.get_ident() not in dc.server_threads:
+                dc.connect_log.append(("tcp", dc.last_host or addr[0], addr[1]))
+        except Exception:
+            pass
+
+
 class TcpDC:
     def __init__(self, core: DCCore) -> None:
         ensure_ntlm_credentials()
@@ -121,12 +141,37 @@ class TcpDC:
         self.errors: t.List[str] = []
         self.listeners = {}
         self.stop = False
-        for logical in (135, core.config.isd_port):
-            srv = socket.socket()
-            srv.setsockopt(socket.SOL_SOCKET, socket.SO_REUSEADDR, 1)
-            srv.bind(("127.0.0.1", 0))
-            srv.listen(64)
-            self.listeners[logical] = srv
+        self.server_threads: t.Set[int] = set()
+        self.last_host: t.Optional[str] = None
+        self.resolved: t.List[tuple] = []
+        self.addr = "127.0.0.1"
+        self.real_ports = False
+        pid = os.getpid()
+        for attempt in range(20):
+            _addr_counter[0] += 1
+            addr = f"127.{1 + pid % 250}.{(pid // 250) % 250}.{1 + _addr_counter[0] % 250}"
+            made = {}
+            try:
+                for logical in (135, core.config.isd_port):
+                    srv = socket.socket()
+                    srv.setsockopt(socket.SOL_SOCKET, socket.SO_REUSEADDR, 1)
+                    srv.bind((addr, logical))
+                    srv.listen(64)
+                    made[logical] = srv
+            except OSError:
+                for x in made.values():
+                    x.close()
+                continue
+            self.listeners, self.addr, self.real_ports = made, addr, True
+            break
+        if not self.real_ports:
+            for logical in (135, core.config.isd_port):
+                srv = socket.socket()
+                srv.setsockopt(socket.SOL_SOCKET, socket.SO_REUSEADDR, 1)
+                srv.bind(("127.0.0.1", 0))
+                srv.listen(64)
+                self.listeners[logical] = srv
+        for logical, srv in self.listeners.items():
             threading.Thread(target=self._accept, args=(srv, logical), daemon=True).start()
         self.ports = {k: v.getsockname()[1] for k, v in self.listeners.items()}
         self.connect_log: t.List[tuple] = []
@@ -143,6 +188,7 @@ class TcpDC:
         from vf.instruments.monitors import NET
 
         NET.exempt_threads.add(threading.get_ident())
+        self.server_threads.add(threading.get_ident())
         conn = self.core.new_connection(logical)
         try:
             while True:
@@ -165,6 +211,9 @@ class TcpDC:
                 c.close()
             except OSError:
                 pass
+            # thread identifiers are reused once a thread has ended: the exemptions must end with it
+            self.server_threads.discard(threading.get_ident())
+            NET.exempt_threads.discard(threading.get_ident())
 
     def close(self) -> None:
         self.stop = True
@@ -176,6 +225,52 @@ class TcpDC:
 
     @contextlib.contextmanager
     def installed(self):
+        if self.real_ports:
+            # only name resolution is scripted: every host name is this DC
+            import sys
+
+            if not _audit_installed[0]:
+                sys.addaudithook(_connect_audit)
+                _audit_installed[0] = True
+            real_gai, real_ghbn = socket.getaddrinfo, socket.gethostbyname
+            dc = self
+
+            def literal(h) -> bool:
+                try:
+                    socket.inet_pton(socket.AF_INET6 if ":" in h else socket.AF_INET, h)
+                    return True
+                except (OSError, ValueError):
+                    return False
+
+            def gai(host, port, family=0, type=0, proto=0, flags=0):
+                h = host.decode() if isinstance(host, (bytes, bytearray)) else host
+                if h is None or literal(h) or threading.get_ident() in dc.server_threads:
+                    return real_gai(host, port, family, type, proto, flags)
+                dc.last_host = h
+                dc.resolved.append((h, port))
+                if family not in (0, socket.AF_INET):
+                    raise socket.gaierror(socket.EAI_NONAME, "Name or service not known")
+                return [(socket.AF_INET, type or socket.SOCK_STREAM, proto or socket.IPPROTO_TCP, "", (dc.addr, int(port or 0)))]
+
+            def ghbn(host):
+                if literal(host) or threading.get_ident() in dc.server_threads:
+                    return real_ghbn(host)
+                dc.last_host = host
+                dc.resolved.append((host, None))
+                return dc.addr
+
+            tr.BRIDGE.install()  # (its connect() override points host names handed straight to connect() at this DC)
+            real_gai, real_ghbn = socket.getaddrinfo, socket.gethostbyname
+            socket.getaddrinfo, socket.gethostbyname = gai, ghbn
+            _active_tcp[self.addr] = self
+            tr.BRIDGE.tcp_dcs.append(self)
+            try:
+                yield self
+            finally:
+                socket.getaddrinfo, socket.gethostbyname = real_gai, real_ghbn
+                _active_tcp.pop(self.addr, None)
+                tr.BRIDGE.tcp_dcs.remove(self)
+            return
         real_cc, real_oc = socket.create_connection, asyncio.open_connection
         log = self.connect_log
 
